@@ -854,6 +854,19 @@ class Ctx:
         self._fork_outcome(0)
         return 0
 
+    def side_end(self, start_pos):
+        """end of a side computation that does not influence what follows (e.g. a restart simulated on a copy): True when a
+        fork inside it (log positions start_pos..now) is on a branch other than its first. The harness then ends the path:
+        what follows is explored once, behind the first branches, instead of once per combination. Recorded with the
+        choices so that the concrete replay ends at the same place."""
+        v = 0
+        for e in self.log[start_pos:self.pos]:
+            if (e.kind == "dec" and e.forked and e.value is False) or (e.kind == "choice" and e.value > 0):
+                v = 1
+                break
+        self.path_choices.append(("side-end", v))
+        return bool(v)
+
     def gate(self, name, budget):
         """a budgeted, logged yes/no: True for the first `budget` distinct path prefixes that ask, False afterwards. The answer
         is part of the decision log (re-executions of the same prefix get the same answer) and of the recorded choices (the
@@ -1326,6 +1339,15 @@ class ConcreteCtx:
     def pick(self, options, label=""):
         options = list(options)
         return options[self.choice(len(options), label)]
+
+    def side_end(self, start_pos):
+        if self.cpos >= len(self.choices):
+            raise HarnessError("replay: ran out of recorded choices")
+        lab, v = self.choices[self.cpos]
+        if lab != "side-end":
+            raise HarnessError("replay: recorded choice is not the side-end mark")
+        self.cpos += 1
+        return bool(v)
 
     def gate(self, name, budget):
         if self.cpos >= len(self.choices):
